@@ -382,17 +382,30 @@ func pubsubC07(c *Ctx) {
 			okphi := false
 			ifs, negs := P.IfsOn(q.fn, func(cond ssa.Value) bool {
 				b, ok := cond.(*ssa.BinOp)
-				return ok && b.Op == token.EQL && either(b, isVal(res), isZero)
+				return ok && (b.Op == token.EQL || b.Op == token.NEQ) && either(b, isVal(res), isZero)
 			})
 			if len(ifs) == 1 {
+				// ts: the successor taken when ping.Add(0) == 0
 				ts := 0
 				if negs[0] {
 					ts = 1
 				}
-				okphi = q.onlyViaEdge(inLoop, ifs[0], ts)
+				if stripNotV(ifs[0].Cond).(*ssa.BinOp).Op == token.NEQ {
+					ts = 1 - ts
+				}
+				// a RE-try (TryRLock after a TryRLock) happens only through that edge
+				okphi = true
+				for _, t := range trys {
+					if P.PathExists(q.fn, t, an.Is(inLoop), nil, cutEdge(ifs[0], ts)) {
+						okphi = false
+					}
+				}
 			}
 			// ping.Add(0) itself only when !ok
 			okIfs, okNegs := P.IfsOn(q.fn, func(cond ssa.Value) bool {
+				if call, ok := cond.(*ssa.Call); ok && P.CalleeName(&call.Call) == "(*sync.RWMutex).TryRLock" {
+					return true // ok is assigned only inside the loop: the value tested is the call's result itself
+				}
 				ph, ok := cond.(*ssa.Phi)
 				if !ok {
 					return false
@@ -463,8 +476,19 @@ func pubsubC07(c *Ctx) {
 		if q.need(afs, "PATH", "AfterFunc(ctx, x.Unsubscribe)") && q.need(subs, "PATH", "Subscribe") {
 			q.add("PATH", "the unsubscribe hook is registered once, after subscribing", len(afs) == 1 && P.Before(q.fn, an.Is(subs[0]), afs[0]) && !P.InCycle(afs[0]), "Subscribe dominates the single AfterFunc", afs[0])
 			hook := false
-			if mc, ok := callArg(afs[0], 1).(*ssa.MakeClosure); ok && strings.Contains(an.FuncName(mc.Fn.(*ssa.Function)), "Unsubscribe") {
-				hook = true
+			if mc, ok := callArg(afs[0], 1).(*ssa.MakeClosure); ok {
+				hf := mc.Fn.(*ssa.Function)
+				if strings.Contains(an.FuncName(hf), "Unsubscribe") {
+					hook = true // the bound method value x.Unsubscribe
+				} else {
+					// a literal that does nothing but call x.Unsubscribe() on every path
+					us := P.CallsTo(hf, "(*ChanPubSub).Unsubscribe")
+					others := an.AllInstrs(hf, func(in ssa.Instruction) bool {
+						cc := an.CallCommonOf(in)
+						return cc != nil && P.CalleeName(cc) != "(*ChanPubSub).Unsubscribe"
+					})
+					hook = len(us) == 1 && len(others) == 0 && !P.PathExists(hf, nil, an.IsReturn, an.In(us), nil) && !P.InCycle(us[0])
+				}
 			}
 			q.add("PROV", "the hook is Unsubscribe", hook, "second argument is the bound method x.Unsubscribe", afs[0])
 		}
@@ -626,14 +650,8 @@ func casterC08(c *Ctx) {
 			q.add("PATH", "values are absorbed only while a Send is in flight (lo == MaxInt32 + hi)", good, pickS(good, "receive reached only through that equality", "a negative Add can receive from the channel when no send is in flight (it would block or steal a value)"), rv)
 			// trip count = delta (negated parameter)
 			okt := false
-			if ifi, ok := loopGuard(rv); ok {
-				b := stripNotV(ifi.Cond).(*ssa.BinOp)
-				for _, v := range []ssa.Value{b.X, b.Y} {
-					l := P.Lin(v)
-					if l.Equal(delta.Neg()) {
-						okt = true
-					}
-				}
+			if hi, _, lo, ok := loopBound(P, rv); ok && lo == 0 {
+				okt = P.Lin(hi).Equal(delta.Neg())
 			}
 			q.add("LIN", "exactly |delta| values are absorbed", okt, pickS(okt, "the loop is bounded by -delta", "the absorbing loop is not bounded by the number of departing receivers"), rv)
 		}
@@ -672,9 +690,8 @@ func casterC08(c *Ctx) {
 			q.add("PATH", "values are sent only after the state was armed", P.Before(q.fn, an.Is(arm), snd) && q.onlyViaEdge(snd, ifOf(P, q.fn, arm.(*ssa.Call)), 0), "send dominated by the successful arming CAS", snd)
 			// trip count: hi word of the armed state
 			okt := false
-			if ifi, ok := loopGuard(snd); ok {
-				b := stripNotV(ifi.Cond).(*ssa.BinOp)
-				for _, v := range []ssa.Value{b.X, b.Y} {
+			if hi, _, lo, ok := loopBound(P, snd); ok && lo == 0 {
+				for _, v := range []ssa.Value{hi} {
 					for _, s := range P.Sources(v) {
 						if sh, isSh := s.(*ssa.BinOp); isSh && sh.Op == token.SHR {
 							if k, isK := constInt(sh.Y); isK && k == 32 && P.IsCallResult(sh.X, "(*sync/atomic.Uint64).Load", 0) && P.Before(q.fn, an.Is(sh.X.(*ssa.Call)), arm) {
